@@ -47,14 +47,19 @@ impl Future for GateFuture {
     }
 }
 
+/// `at`: the signal is up at poll number `at` (transient: only at that poll, else from then on).
+/// `at_call`: the signal goes up when the provider request number `at_call` (get_candidates and
+/// get_dependencies counted together) starts; transient: it is withdrawn when the next request starts.
 #[derive(Clone, Debug, Default)]
-pub struct CancelPlan { pub at: Option<usize>, pub transient: bool }
+pub struct CancelPlan { pub at: Option<usize>, pub at_call: Option<usize>, pub transient: bool }
 
 pub struct TableProvider {
     pub u: Universe,
     /// `c<name>` get_candidates, `d<solvable>` get_dependencies, `p<k>`/`P<k>` poll k (P = fired)
     pub log: RefCell<Vec<String>>,
     pub polls: Cell<usize>,
+    pub calls_started: Cell<usize>,
+    pub raised: Cell<bool>,
     pub cancel: RefCell<CancelPlan>,
     pub gates: Option<Rc<Gates>>,
     pub gate_filter_sort: bool,
@@ -63,13 +68,21 @@ pub struct TableProvider {
 
 impl TableProvider {
     pub fn new(u: Universe) -> Self {
-        TableProvider { u, log: RefCell::new(Vec::new()), polls: Cell::new(0), cancel: RefCell::new(CancelPlan::default()),
+        TableProvider { u, log: RefCell::new(Vec::new()), polls: Cell::new(0), calls_started: Cell::new(0), raised: Cell::new(false), cancel: RefCell::new(CancelPlan::default()),
             gates: None, gate_filter_sort: false, sort_peeks_deps: false }
     }
     async fn gate(&self, label: String) {
         if let Some(g) = &self.gates {
             let idx = { let mut v = g.gates.borrow_mut(); v.push(Gate { label, done: false, waker: None }); v.len() - 1 };
             GateFuture { gates: g.clone(), idx }.await
+        }
+    }
+    fn request_started(&self) {
+        let n = self.calls_started.get();
+        self.calls_started.set(n + 1);
+        let plan = self.cancel.borrow();
+        if let Some(j) = plan.at_call {
+            if n == j { self.raised.set(true); } else if plan.transient && n > j { self.raised.set(false); }
         }
     }
     pub fn matches(&self, vs: u32, s: u32) -> bool { self.u.vsets.get(&vs).map(|v| v.matching.contains(&s)).unwrap_or(false) }
@@ -95,6 +108,7 @@ impl DependencyProvider for TableProvider {
 
     async fn get_candidates(&self, name: NameId) -> Option<Candidates> {
         self.log.borrow_mut().push(format!("c{}", name.0));
+        self.request_started();
         self.gate(format!("c{}", name.0)).await;
         let p = self.u.pkgs.get(&name.0)?;
         Some(Candidates {
@@ -120,6 +134,7 @@ impl DependencyProvider for TableProvider {
 
     async fn get_dependencies(&self, solvable: SolvableId) -> Dependencies {
         self.log.borrow_mut().push(format!("d{}", solvable.0));
+        self.request_started();
         self.gate(format!("d{}", solvable.0)).await;
         match self.u.solvs.get(&solvable.0).map(|s| &s.deps) {
             Some(Deps::Known { reqs, cons }) => Dependencies::Known(KnownDependencies {
@@ -135,7 +150,7 @@ impl DependencyProvider for TableProvider {
         let k = self.polls.get();
         self.polls.set(k + 1);
         let plan = self.cancel.borrow();
-        let fire = match plan.at { Some(at) => if plan.transient { k == at } else { k >= at }, None => false };
+        let fire = match plan.at { Some(at) => if plan.transient { k == at } else { k >= at }, None => false } || self.raised.get();
         self.log.borrow_mut().push(format!("{}{}", if fire { 'P' } else { 'p' }, k));
         if fire { Some(Box::new(7000u64 + k as u64)) } else { None }
     }
